@@ -66,7 +66,7 @@ def theorems_of(prop):
         m = re.search(r"^namespace\s+(\S+)", body, re.M)
         if m:
             ns = m.group(1)
-        names = re.findall(r"^theorem\s+([A-Za-z0-9_.']+)", body, re.M)
+        names = re.findall(r"^(?:@\[[^\]]*\]\s*)?(?:protected\s+|private\s+)?theorem\s+([A-Za-z0-9_.']+)", body, re.M)
         out += [(ns + "." + n) if ns else n for n in names]
     return out
 
@@ -124,14 +124,14 @@ def lean_stage(prop, extra_modules=(), clean=False, leanchecker=False):
             os.remove(audit)
         cur = None
         for line in out.splitlines():
-            m = re.match(r"'([^']+)' depends on axioms: \[(.*)\]", line)
-            m2 = re.match(r"'([^']+)' does not depend on any axioms", line)
+            m = re.match(r"'(.+)' depends on axioms: \[(.*)\]", line)
+            m2 = re.match(r"'(.+)' does not depend on any axioms", line)
             if m:
                 res["axioms"][m.group(1)] = [a.strip() for a in m.group(2).split(",") if a.strip()]
             elif m2:
                 res["axioms"][m2.group(1)] = []
         # multi-line axiom lists
-        for m in re.finditer(r"'([^']+)' depends on axioms: \[([^\]]*)\]", out, re.S):
+        for m in re.finditer(r"^'([^\n]+)' depends on axioms: \[([^\]]*)\]", out, re.S | re.M):
             res["axioms"][m.group(1)] = [a.strip() for a in m.group(2).replace("\n", " ").split(",") if a.strip()]
         for t in thms:
             if t not in res["axioms"]:
